@@ -1,5 +1,5 @@
-(** C13 — bounded work per poll (a); see DESIGN.md for the starvation bound (b) *)
-From FB Require Import Base Syntax World SlotMap Fub Unbounded Step WorldProofs UnboundedProofs CountProofs WakeProofs FifoProofs.
+(** C13 — bounded work per poll (a); no starvation inside a group and across groups (b) *)
+From FB Require Import Base Syntax World SlotMap Fub Unbounded Step WorldProofs UnboundedProofs CountProofs WakeProofs FifoProofs StepProofs Reach GroupWake CrossGroup.
 
 (** one call of the bounded core polls at most [B] children (B = the calibrated budget, 61),
     however many wake themselves continuously *)
@@ -69,3 +69,54 @@ Theorem C13_position_decreases :
   exists pre' post', q' = pre' ++ x :: post' /\ length pre' + length popped = length pre.
 Proof. exact position_after. Qed.
 Print Assumptions C13_position_decreases.
+
+(** (b) across groups.  [rot u] is the order in which the next poll meets the groups (from the
+    cursor).  In every reachable state of every history: a group at distance [length pre] from
+    the cursor is polled during the call ([polled_in]: at a moment when its ready queue is the
+    one it had at the start of the call, extended at the tail only), or the call returned an
+    item from a group in front of it and afterwards the group — untouched — is strictly closer
+    to the cursor, its queue only extended at the tail.  Hence it is polled within
+    [length pre + 1] <= number-of-groups polls, however many items the other groups produce. *)
+Theorem C13_group_not_starved :
+  forall (P : params), params_ok P ->
+  forall (ops : list op) (mrg : bool) (u : fu) (t : nat) (i : injection) (pre : list fub) (g : fub) (post : list fub),
+  st_coll (reach P ops) = (if mrg then CMu u else CFu u) ->
+  rot u = pre ++ g :: post ->
+  let w := begin_op i (st_world (reach P ops)) in
+  let '(u', sp, w') := fu_poll_next P mrg u t w in
+  polled_in P mrg g t w w'
+  \/ (exists tk c pre' post', sp = SItem tk c /\ rot u' = pre' ++ g :: post' /\ length pre' < length pre
+        /\ frame (blk g) w w').
+Proof. exact reachable_group_not_starved. Qed.
+Print Assumptions C13_group_not_starved.
+
+(** ... and when the group is polled, the child whose slot is at the head of its ready queue
+    is polled (no forced "inconsistent" pop in that call) *)
+Theorem C13_polled_group_polls_its_head :
+  forall (P : params), params_ok P ->
+  forall (mrg : bool) (g : fub) (t : nat) (w w' : world) (s : nat) (rest : list nat) (c : child),
+  polled_in P mrg g t w w' -> fub_len g <> 0 -> inj_inc (winj w) = [] ->
+  qof w (blk g) = s :: rest -> sm_get (tasks g) s = Some c ->
+  In (ECPoll (cid c) (blk g) s (blk g, s)) (log w').
+Proof. exact polled_in_polls_head. Qed.
+Print Assumptions C13_polled_group_polls_its_head.
+
+(** the cursor moves past the group that yielded (the fix of finding F2): after an item the
+    yielding group is last in cursor order *)
+Theorem C13_cursor_moves_past_the_yielding_group :
+  forall (P : params) (mrg : bool) (u : fu) (t : nat) (w : world),
+  groups u <> [] ->
+  exists l1 g l2, groups u = l1 ++ g :: l2 /\ length l1 = norm u /\
+    let '(g', sp, w1) := poll_group P mrg g t w in
+    match fu_iter P mrg u t w with
+    | ICont u1 w2 =>
+        (sp = SPending /\ groups u1 = l1 ++ g' :: l2 /\ cursor u1 = S (length l1) /\ w2 = w1)
+        \/ (sp = SNone /\ l2 = [] /\ groups u1 = l1 ++ [g'] /\ cursor u1 = 0 /\ w2 = w1)
+        \/ (sp = SNone /\ l2 <> [] /\ groups u1 = l1 ++ l2 /\ cursor u1 = length l1 /\ w2 = fub_drop g' w1)
+    | IDone (u', sp', w') =>
+        sp' = sp /\ sp <> SPending /\ w' = w1 /\ (blk g' = blk g -> blks (groups u') = blks (groups u))
+        /\ (forall tk c, sp = SItem tk c -> groups u' = l1 ++ g' :: l2 /\ cursor u' = S (length l1))
+        /\ (sp = SNone -> l1 = [] /\ l2 = [])
+    end.
+Proof. exact fu_iter_shape. Qed.
+Print Assumptions C13_cursor_moves_past_the_yielding_group.
